@@ -240,6 +240,7 @@ def other_process_job(arg):
 
     placement, producer, edit, store, idx = arg[:5]
     rep = core.Report(arg[5] if len(arg) > 5 else "C09")
+    restricted = arg[6] if len(arg) > 6 else None  # stage list: the reader's evaluation before the other process is a restricted run
     rep.evaluations = 1
     p0 = build("c9o_%d" % idx, placement, producer, "earlier_eval", False, "assign")
     p1, d = edits_of(p0, edit)
@@ -259,7 +260,7 @@ def other_process_job(arg):
                 "steps": [{"write": gen.render(p1), "how": "import", "modules": gen.import_order(p1), "entry": ent(p1, ids["pmain"])}]}
         seg = {"mode": "impl", "root": ra, "accept": [p0["pkg"]], "store": {"kind": store, "dir": sdir},
                "steps": [{"write": gen.render(p0), "how": "import", "modules": gen.import_order(p0), "entry": ent(p0, ids["pmain"])},
-                         {"how": "none", "entry": ent(p0, ids["rmain"])},
+                         {"how": "none", "entry": dict(ent(p0, ids["rmain"]), options={"dds_stages": restricted}) if restricted is not None else ent(p0, ids["rmain"])},
                          {"how": "none", "side": side, "entry": ent(p0, ids["rmain"])},
                          {"how": "none", "entry": ent(p0, ids["rmain"])}]}
         a = core.fork_call(run_segment, seg, timeout=600)
@@ -284,7 +285,11 @@ def other_process_job(arg):
         return rep
     rep.count("other_process_updates")
     r1 = a["steps"][1]["result"]
-    if r1[0] != "ok" or pickle.loads(r1[1]) != pickle.loads(want_before[1]):
+    if restricted is not None:
+        if r1[0] != "ok":
+            rep.violate("%s: the restricted run (stages %r) of the reader raised %s" % (name, restricted, r1[1:3]), case, mechanism="restricted-run-raised")
+            return rep
+    elif r1[0] != "ok" or pickle.loads(r1[1]) != pickle.loads(want_before[1]):
         rep.violate("%s: reader before the other process returned %s" % (name, r1[2][:120]), case, mechanism="other-process-baseline-wrong")
         return rep
     for si in (2, 3):
